@@ -314,9 +314,23 @@ class _TftpFallback(TftpRequestHandler):
 
 DECLINED = 4
 _servers = {}
+_prev_excepthook = None
+
+
+def _quiet_excepthook(args):
+    # a BaseException-derived exception of the recording data source ends the server's request thread (that is the
+    # expected behaviour); do not print its traceback
+    if isinstance(args.exc_value, HarnessBaseException):
+        return
+    _prev_excepthook(args)
 
 
 def _http_server():
+    global _prev_excepthook
+    if _prev_excepthook is None:
+        import threading as _th
+        _prev_excepthook = _th.excepthook
+        _th.excepthook = _quiet_excepthook
     if "http" not in _servers:
         from vinegar.http.server import HttpServer
         front = _HttpFront()
@@ -344,6 +358,15 @@ def servable(tftp, uri):
         return all(0 < ord(c) < 128 for c in uri) and len(uri) < 400
     return (uri.startswith("/") and all(ord(c) > 32 and ord(c) != 127 and ord(c) < 256 for c in uri)
             and len(uri) < 8000)
+
+
+def wire_to_handler(tftp, wire):
+    """what the server in front is specified to hand to the handler for a request target / file name on the wire:
+    the raw string, except that Python's http.server collapses a run of leading slashes into one (CPython gh-87389,
+    part of BaseHTTPRequestHandler.parse_request); the TFTP server passes the file name as it is"""
+    if not tftp and wire.startswith("//"):
+        return "/" + wire.lstrip("/")
+    return wire
 
 
 def via_server(h, tftp, uri):
